@@ -54,7 +54,10 @@ type Transcript struct {
 	// SessElapsed is the longest wall time any single session took (each
 	// session has a limiter bucket of its own).
 	SessElapsed time.Duration
-	Err         string // harness-level failure (inconclusive)
+	// WindowElapsed runs from the first case packet to the end of the last
+	// session (entry limiters are shared by both phases).
+	WindowElapsed time.Duration
+	Err           string // harness-level failure (inconclusive)
 }
 
 func boolp(b bool) *bool { return &b }
@@ -453,12 +456,9 @@ func runWorld(g *Group, world string) *Transcript {
 			st.Cache().VerifStore().RecordZoneFailure(dns.Question{Name: op.Zone, Qtype: dns.TypeA, Qclass: dns.ClassINET}, op.Zone)
 		case "purge":
 			// the operator's purge (API endpoint → middleware.Purger): stands in
-			// for one entry running out while its neighbours stay
-			// (without prefetch every serve is synchronous: nothing can be in flight)
-			if g.Conf.Prefetch > 0 && !rn.settle() {
-				tr.Err = "quiesce timeout before purge"
-				return tr
-			}
+			// for one entry running out while its neighbours stay. The pipeline is
+			// quiescent here: serves are synchronous and, where prefetch workers
+			// exist, the previous step ended with settleStep.
 			st.Cache().Purge(dns.Question{Name: op.Name, Qtype: op.Qtype, Qclass: dns.ClassINET})
 		}
 		if d := time.Since(tOp); d > 20*time.Millisecond && os.Getenv("C05_TIMING") != "" {
@@ -529,6 +529,7 @@ func runWorld(g *Group, world string) *Transcript {
 			tr.SessElapsed = d
 		}
 	}
+	tr.WindowElapsed = time.Since(start)
 	return tr
 }
 
